@@ -143,6 +143,10 @@ def run(tier="quick", seed=0):
                     fail("roundtrip", f"job for {sp}: id {job.id}, canonical {ref_id(sp)}, file hashes to {ref_id(back)}", f"import signac, tempfile\nsp = {sp!r}\n"
                          "with tempfile.TemporaryDirectory() as d:\n    j = signac.init_project(d).open_job(sp).init()\n    import json\n"
                          "    assert j.id == " + repr(ref_id(sp)) + "\n")
+    from .c02 import aliasing_checks
+    for key, desc in aliasing_checks():
+        evals += 1
+        failures.append({"key": key, "description": desc, "script": ""})
     from .fsharness import KNOWN_SEEN, probe_known
     probe_known()
     if "dep:equal-value-other-type-ignored" in KNOWN_SEEN:
